@@ -28,19 +28,17 @@ theorem same_idxOp (g : Graph) (op : C04.Op Str) : Same g (g.idxOp op) := by
 theorem same_onRsEvent (g : Graph) (e : RsEvent) : Same g (g.onRsEvent e) := by
   cases e with
   | ipsetActive uid d => exact (same_emit _ _).trans (same_idxOp _ _)
-  | ipsetInactive uid => exact same_idxOp _ _
+  | ipsetInactive uid => exact (same_idxOp _ _).trans (same_emit _ _)
+
+theorem same_rsUpdate (H : IdFn) (g : Graph) (key : RulesId) (r : Option RulesIn) :
+    Same g (g.rsUpdate H key r) := by
+  unfold Graph.rsUpdate
+  simp only []
+  exact Same.trans (⟨rfl, rfl⟩ : Same g _) (same_foldl Graph.onRsEvent same_onRsEvent _ _)
 
 theorem same_scanRules (H : IdFn) (g : Graph) (key : RulesId) (r : Option RulesIn) :
-    Same g (g.scanRules H key r) := by
-  unfold Graph.scanRules
-  simp only []
-  have h1 : Same g (List.foldl Graph.onRsEvent { g with rs := (g.rs.updateRules key (match r with
-      | some r => currentSets H r
-      | none => [])).1 } (g.rs.updateRules key (match r with
-      | some r => currentSets H r
-      | none => [])).2) :=
-    Same.trans (⟨rfl, rfl⟩ : Same g _) (same_foldl _ same_onRsEvent _ _)
-  cases key <;> cases r <;> exact h1.trans (same_emit _ _)
+    Same g (g.scanRules H key r) :=
+  Same.trans (same_rsUpdate H g key r) (same_emit _ _)
 
 theorem same_profEvents (H : IdFn) (g : Graph) (evs : List (C05.Event RulesIn)) : Same g (g.profEvents H evs) := by
   unfold Graph.profEvents
